@@ -315,6 +315,7 @@ func (w *W) InetAddr(addr []byte) {
 
 // TypeOption writes an [option] type description.
 func (w *W) TypeOption(t *Type) {
+	w.mark(2, "type-id")
 	w.Short(int(t.Kind))
 	switch t.Kind {
 	case Custom:
